@@ -18,7 +18,7 @@ import pydiverse.transform as pdt
 from pydiverse.transform._internal.pipe.table import Table as _Table
 from sim import exprs as X
 from sim import fingerprint as F
-from sim.machine import INTERNAL_ERRORS, Skip, canon_rows, sha
+from sim.machine import INTERNAL_ERRORS, ROW_CAP, Skip, canon_rows, sha
 
 FAM_PROP = {"O19": "C19", "O6": "C06", "O8": "C08", "O9": "C09", "O10": "C10", "O11": "C11", "O14": "C14", "O16": "C16"}
 REROOT_OPS = ("alias", "collect", "clone", "transfer", "recompute")
@@ -552,6 +552,10 @@ class OraclesMixin:
                     pt.real.pop(rep, None)
                 continue
             _, cols, rows = res
+            pt.nrows = max(pt.nrows or 0, len(rows))
+            if len(rows) > 4 * ROW_CAP:
+                self.stats["row_cap_exceeded"] += 1
+                raise Skip("export larger than the row cap")
             npr = len(pr)
             vis_cols = cols[: len(cols) - npr]
             if vis_cols != [n for n in vis_cols if m.tok_of_name(n)] or len(vis_cols) != len(m.visible):
@@ -609,6 +613,12 @@ class OraclesMixin:
         rep0 = "polars" if "polars" in canon else sorted(canon)[0]
         digest = sha(canon[rep0])
         for rep in canon:
+            if rep == "sqlite" and probes and self.c08_cause(m, op) != "other":
+                # open finding K-01: in this state the number of rows SQLite returns depends on
+                # whether the SELECT list contains an aggregate - and the probe columns add one. The
+                # probed export is then not comparable with a later plain export (O10.2).
+                self.stats["k01_state_digest_not_recorded"] += 1
+                continue
             pt.first_digest[rep] = sha(canon[rep])
         return digest
 
